@@ -302,6 +302,49 @@ func c20DistinctRouteGroups(c *Ctx, r *Report, rule string) {
 	if n == 0 {
 		r.viol(rule, fnKey(newRouter)+"|groups", c.rel(newRouter.Pos()), "no route group is created in newRouter (anchor moved)")
 	}
+	// (a') inside one route table: two patterns that agree up to a wildcard segment must name it alike
+	// (gin: "':X' in new path conflicts with existing wildcard ':Y'" - a panic while the router is built)
+	sbiPkg := c.pkg("internal/sbi")
+	for _, g := range c.ModFuncs {
+		if g.Pkg == nil || g.Pkg.Pkg != sbiPkg.Types || g.Parent() != nil {
+			continue
+		}
+		var pats []string
+		eachInstr(g, func(_ *ssa.BasicBlock, _ int, ins ssa.Instruction) {
+			st, ok := ins.(*ssa.Store)
+			if !ok {
+				return
+			}
+			fa, ok := st.Addr.(*ssa.FieldAddr)
+			if !ok || fieldName(fa) != "Pattern" {
+				return
+			}
+			if s, ok := constString(st.Val); ok {
+				pats = append(pats, s)
+			}
+		})
+		if len(pats) < 2 {
+			continue
+		}
+		conflict := ""
+		wild := map[string]string{} // path prefix -> wildcard name seen there
+		for _, p := range pats {
+			segs := strings.Split(strings.Trim(p, "/"), "/")
+			prefix := ""
+			for _, sg := range segs {
+				if strings.HasPrefix(sg, ":") || strings.HasPrefix(sg, "*") {
+					if prev, ok := wild[prefix]; ok && prev != sg {
+						conflict = fmt.Sprintf("%q and %q name the wildcard after %q differently", prev, sg, prefix)
+					}
+					wild[prefix] = sg
+					prefix += "/" + ":"
+				} else {
+					prefix += "/" + sg
+				}
+			}
+		}
+		r.check(conflict == "", rule, fnKey(g)+"|wildcards of the route table", c.rel(g.Pos()), fmt.Sprintf("%d patterns, wildcard segments named consistently", len(pats)), "in the route table of "+g.Name()+" "+conflict+": gin refuses the second registration with a panic, so a validated configuration that lists this service crashes while the SBI server is built")
+	}
 	// (b) a repeated name
 	dedup := func(f *ssa.Function) bool {
 		found := false
